@@ -336,7 +336,7 @@ Definition br_run (ops : list op) : list obs := map br_step ops.
 
 (* answers as numbers: 0/1 bit, 2 EOF, 3 done, 4 IncompleteOutput, 5 BrokenIOUsed, 6+c other exception,
    16 + (1 b0 b1 .. in base 256) for bytes *)
-Definition bytes_code (l : list N) : N := fold_left (fun a b => a * 256 + b) l 1.
+Definition bytes_code (l : list N) : N := fold_left (fun a b => N.shiftl a 8 + b) l 1.   (* a * 256 + b *)
 Definition obs_code (o : obs) : N :=
   match o with
   | OBit b => N.b2n b | OEof => 2 | ODone => 3 | OIncomplete => 4 | OBroken => 5
@@ -345,9 +345,10 @@ Definition obs_code (o : obs) : N :=
 Definition op_of_code (c : N) : op :=
   match c with 0 => OpRead | 1 => OpWrite false | 2 => OpWrite true | 3 => OpGet false | _ => OpGet true end.
 
-(* a bit string as the number 2^n + sum b_i 2^i *)
-Definition bits_of_code (nv : N) : list bool :=
-  map (fun i => N.testbit nv (N.of_nat i)) (seq 0 (N.to_nat (N.size nv) - 1)).
+(* a bit string b_0 .. b_{n-1} as the number 2^n + sum b_i 2^i: the binary digits below the leading one, lowest first *)
+Fixpoint pos_bits (p : positive) : list bool :=
+  match p with xH => [] | xO q => false :: pos_bits q | xI q => true :: pos_bits q end.
+Definition bits_of_code (nv : N) : list bool := match nv with N0 => [] | Npos p => pos_bits p end.
 
 (* packing cases: device (0 FixedIO, 1 StandardIO silent, 2 StandardIO verbose, 3 KeyboardIO), the written bits,
    codes of get_output(allow_incomplete_output=False) and (=True) afterwards *)
@@ -427,3 +428,27 @@ Definition check_script (c : xcase) : bool := model_script_ok c && spec_script_o
 Definition check_broken (c : list N * list N) : bool :=
   codes_eqb (map obs_code (br_run (map op_of_code (fst c)))) (snd c) &&
   codes_eqb (map obs_code (broken_trace (map op_of_code (fst c)))) (snd c).
+
+(* the same cases with their small numbers written as primitive integers (Coq parses those literals about four times
+   faster than N literals); answers that are byte strings (codes >= 16) come separately, marked 15 in the list *)
+Definition int_N (x : Uint63.int) : N := Z.to_N (Uint63.to_Z x).
+Fixpoint merge_obs (small : list Uint63.int) (big : list N) : list N :=
+  match small with
+  | [] => []
+  | x :: r =>
+      let c := int_N x in
+      if c =? 15 then match big with b :: bg => b :: merge_obs r bg | [] => [15] end
+      else c :: merge_obs r big
+  end.
+Definition check_fixed63 (c : list Uint63.int * list Uint63.int * list Uint63.int * list N) : bool :=
+  let '(input, ops, small, big) := c in check_fixed (map int_N input, map int_N ops, merge_obs small big).
+Definition check_standard63 (c : bool * list Uint63.int * list Uint63.int * list Uint63.int * list N * list Uint63.int) : bool :=
+  let '(v, input, ops, small, big, out) := c in
+  check_standard (v, map int_N input, map int_N ops, merge_obs small big, map int_N out).
+Definition check_kbd63 (c : list (Z * bool * Z) * list Uint63.int * list Uint63.int * list N) : bool :=
+  let '(evs, ops, small, big) := c in check_kbd (evs, map int_N ops, merge_obs small big).
+Definition check_script63 (c : list Uint63.int * option (list (Z * bool * Z)) * list Uint63.int * Uint63.int * list Uint63.int * list N) : bool :=
+  let '(text, gen, ops, ctor, small, big) := c in
+  check_script (map int_N text, gen, map int_N ops, int_N ctor, merge_obs small big).
+Definition check_broken63 (c : list Uint63.int * list Uint63.int) : bool :=
+  check_broken (map int_N (fst c), map int_N (snd c)).
